@@ -56,6 +56,55 @@ def err_on_edge(body, dst, variant):
     return False
 
 
+def tested_before_success(prog, f, field_pat, prop_name):
+    """for every `check` of the expression stored in the field matched by field_pat: does every path from the call to a
+    successful return cross an edge on which the result's `<prop_name>` was tested (is_local: tested true; quantifier: tested at
+    all)?  Returns a list of (call block, ok, detail)."""
+    from ..engines.e1_div import failure_blocks
+    from ..lib.cfgq import normalized
+    body, tr = f.body, Tracer(f.body)
+    fail = failure_blocks(body)
+    out = []
+    for vb, t in body.calls():
+        if not is_callee(t, r"checker::<impl tsg::ast::Expression>::check$"):
+            continue
+        src = canon(tr.operand(t["args"][0]))
+        if not re.search(field_pat, src):
+            continue
+        good = set()
+        for b in sorted(body.reachable()):
+            for g in switch_edges(body, tr, b):
+                ncond, nval = normalized(g)
+                mine = any(x[0] == "call" and len(x) > 4 and x[4] == vb for x in walk(ncond))
+                if not mine:
+                    continue
+                c = canon(ncond)
+                if prop_name == "is_local":
+                    if re.search(r"\.is_local$", c) and nval is True:
+                        good.add((g.src, g.dst))
+                else:
+                    if "." + prop_name in c:
+                        # an edge that decided something about the quantifier and did not end in an error
+                        good.add((g.src, g.dst))
+        # edge-avoiding reachability from the call's normal successor
+        seen, work = set(), [t["t"]] if t.get("t") is not None else []
+        reached_ok = None
+        while work:
+            x = work.pop()
+            if x in seen or x in fail:
+                continue
+            seen.add(x)
+            if body.term(x)["k"] == "return":
+                reached_ok = x
+                break
+            for y in body.succ(x):
+                if (x, y) in good or body.blocks[y].get("cleanup"):
+                    continue
+                work.append(y)
+        out.append((vb, reached_ok is None and bool(good), "%d deciding edge(s)" % len(good) if reached_ok is None else "a successful return is reachable without the test", src))
+    return out
+
+
 def run(prog, rep):
     chk = [f for f in prog.fns.values() if f.file == "src/checker.rs" and f.body is not None]
     # ---- E8.c catalogue
@@ -169,6 +218,24 @@ def run(prog, rep):
                         eager.add((ty, mm.group(1)))
                     else:
                         rep.violation("E3.l", "%s :: eager evaluation of a non-field" % f.id, sp_str(t["sp"]), "evaluate_eager on %s" % src[:120])
+    # … and the requirement guards every successful path: wherever the lazy interpreter evaluates a source eagerly, no path of the
+    # checker from checking that source to a successful return avoids the `is_local` test
+    nmp = 0
+    for ty, fld in sorted(eager):
+        owner = ty.split("::")[0]
+        fl = [f for f in chk if f.name == "check" and f.kind != "closure" and (f.self_path or "").endswith("::" + owner)]
+        if len(fl) != 1:
+            rep.violation("E3.l", "anchor-lost:checker %s::check" % owner, "", "not found")
+            continue
+        pat = r"arg:self as %s\)\.%s|arg:self as \w+\)\.%s" % (ty.split("::")[1], fld, fld) if "::" in ty else r"arg:self\.%s\b" % fld
+        res = tested_before_success(prog, fl[0], pat, "is_local")
+        if not res:
+            rep.violation("E3.l", "%s :: %s checked" % (fl[0].id, fld), fl[0].loc(), "the eagerly evaluated source %s.%s is not checked by %s" % (ty, fld, fl[0].name))
+        for vb, ok, detail, src in res:
+            nmp += 1
+            rep.check(ok, "E3.l", "%s :: %s.%s local on every successful path" % (fl[0].id, ty, fld), fl[0].loc(), detail,
+                      "%s of `%s`: a source that is not local can be accepted, and the lazy interpreter will force it during collection" % (detail, src[:80]))
+    rep.floor("E3.l", nmp, 7, "eagerly evaluated sources guarded in the checker")
     rep.check(required == eager and len(required) >= 7, "E3.l", "local-required = eager", "", "both: %s" % sorted(required),
               "checker requires local sources for %s but the lazy interpreter evaluates eagerly %s" % (sorted(required - eager) or sorted(required), sorted(eager - required) or sorted(eager)))
     # forcing only through evaluate_eager during the execute phase
@@ -292,6 +359,24 @@ def run(prog, rep):
                     ok = ok and canon(strip(tr.operand(t["args"][1]))) == "arg:ctx"
         rep.check(ok, "C06.B", "%s :: per-arm scope" % f.id, f.loc(), "a fresh nested scope per arm; conditions in the enclosing scope",
                   "the arms of %s do not each get their own nested scope (or conditions are checked inside an arm's scope)" % ty.rsplit("::", 1)[-1])
+    # the loop variable of for / comprehensions lives in the same scope as the body it is bound for: a body checked one scope
+    # deeper may redefine the variable (shadowing) although the interpreters run variable and body in one scope
+    for ty in ("tsg::ast::ForIn", "tsg::ast::ListComprehension", "tsg::ast::SetComprehension"):
+        fl = [f for f in chk if f.self_path == ty and f.name == "check"]
+        if len(fl) != 1:
+            rep.violation("C06.B", "anchor-lost:%s::check" % ty, "", "not found")
+            continue
+        f = fl[0]
+        body, tr = f.body, Tracer(f.body)
+        var_ctx = [canon(tr.operand(t["args"][1])) for b, t in body.calls() if is_callee(t, r"<impl tsg::ast::UnscopedVariable>::check_add$")]
+        inner = [canon(tr.operand(t["args"][1])) for b, t in body.calls()
+                 if (is_callee(t, r"checker::<impl tsg::ast::Statement>::check$") if ty.endswith("ForIn") else
+                     (is_callee(t, r"checker::<impl tsg::ast::Expression>::check$") and re.search(r"arg:self\.element\b", canon(tr.operand(t["args"][0])))))]
+        depth = lambda c: c.count("VariableMap::nested(")
+        ok = len(var_ctx) == 1 and len(inner) >= 1 and all(depth(c) == depth(var_ctx[0]) == 1 and "arg:ctx.locals" in c for c in inner)
+        rep.check(ok, "C06.B", "%s :: variable and body share one scope" % f.id, f.loc(), "variable bound and body/element checked in the same nested scope",
+                  "the loop variable is bound at scope depth %s but the body is checked at depth %s: a redefinition of the loop variable is no longer an error"
+                  % ([depth(c) for c in var_ctx], [depth(c) for c in inner]))
     # the context handed from stanza to stanza is read-only: no memo/cache can carry facts of one stanza into the check of another
     from ..lib import typewalk
     rep.rule("C06.C", "tsg::checker::CheckContext holds no interior mutability (every stanza is checked against the file, never against what earlier stanzas left behind)")
@@ -306,6 +391,7 @@ def run(prog, rep):
     from ..engines import e2_errflow as e2
     rep.rule("E5.var", "VariableMap::add refuses every second definition; VariableMap::set writes mutable bindings only")
     e5.variable_map_shape(prog, rep, "E5.var")
+    e5.mutability_flags(prog, rep)
     rep.rule("E2.d", "no VariableError of the scope maps is dropped or replaced on the way to the checker")
     nv, _k = e2.run_e2d(prog, rep, [f for f in prog.fns.values() if f.file == "src/variables.rs"], e2.ABSORB)
     rep.floor("E2.d", nv, 1, "fallible calls in variables.rs")
@@ -320,6 +406,13 @@ def run(prog, rep):
         body, tr = f.body, Tracer(f.body)
         diff = [(b, t) for b, t in body.calls() if is_callee(t, r"HashSet::<T, S, A>::difference$")]
         okd = len(diff) == 1 and "capture_names" in canon(tr.operand(diff[0][1]["args"][0])) and "Extend::extend" not in canon(tr.operand(diff[0][1]["args"][0]))
+        if len(diff) == 1 and not okd:
+            # the set of all captures built by an explicit loop: `for cn in query.capture_names() { … all.insert(cn) }`
+            recv = canon(strip(tr.operand(diff[0][1]["args"][0])))
+            for b, t in body.calls():
+                if is_callee(t, r"HashSet::<T, S, A>::insert$") and canon(strip(tr.operand(t["args"][0]))) == recv and "capture_names" in canon(tr.operand(t["args"][1])):
+                    lp = [(h, bl) for h, bl in natural_loops(body) if b in bl]
+                    okd = bool(lp) and recv.startswith("HashSet::new(")
         filt = False
         for c in prog.closures_of(f):
             cc = canon(Tracer(c.body).local(0))
